@@ -22,112 +22,205 @@ theorem constants : EphVerif.Gen.C04.kWipeBuffer = 4096 ∧ EphVerif.Gen.C04.chu
 /-- **C04.inv.**  Start from a machine that is off with an arbitrary directory (files of earlier
     instances, torn files, anything).  After any history — stores, overwrites, lookups, sweeps,
     ticks, clock advances, restarts, a crash at any file-system step of any operation or of a
-    start-up — whenever an instance is running, the chunk files in the directory are exactly the
-    current records: a file exists for `id` iff there is a record for `id`, and it holds exactly the
-    record's (encrypted) bytes. -/
-theorem inv (nc : NodeCfg) (hc : PersistCfg nc.store) (t0 : Int) (fs0 : FS) (ops : List HOp) (id : String) :
+    start-up, and **any file-system call of any operation failing with an I/O error** (`HOp.fail`,
+    `HOp.restartF`: failed open, failed or short write, failed unlink, in any combination) —
+    whenever an instance is running: every record stored as persisted has its file with exactly its
+    (encrypted) bytes, and every chunk file that is present is either such a file or is on the
+    retry list `pending` (a wipe of it failed; every sweep tries again). -/
+theorem inv (nc : NodeCfg) (hc : PersistCfg nc.store) (t0 : Int) (fs0 : FS) (ops : List HOp) :
     let h := hrun nc (offState t0 fs0) ops
-    h.up = true → aget h.w.sys.fs (.chunk id) = (aget h.w.sys.recs id).map (·.data) := by
+    h.up = true →
+    (∀ id r, aget h.w.sys.recs id = some r → r.persisted = true →
+      aget h.w.sys.fs (.chunk id) = some r.data ∧ Name.chunk id ∉ h.w.sys.pending) ∧
+    (∀ id c, aget h.w.sys.fs (.chunk id) = some c → Name.chunk id ∉ h.w.sys.pending →
+      ∃ r, aget h.w.sys.recs id = some r ∧ r.persisted = true ∧ r.data = c) := by
   intro h hup
-  exact (hinv_run hc ops (hinv_off t0 fs0) hup).files id
+  have := hinv_run hc ops (hinv_off t0 fs0) hup
+  exact ⟨this.files_ok, this.files_only⟩
 
 /-- **C04.files_allowed** (the same in terms of the specification).  Whenever an instance is
-    running, a chunk file that is present holds exactly the bytes of the latest store of that id
-    *by this instance*, and that chunk was still live at the most recent cleanup (sweep or
-    start-up): `StoreSpec.fileAllowed`.  In particular files of earlier instances, of interrupted
-    stores and of chunks whose expiry was first noticed by a lookup are not present. -/
+    running, a chunk file that is present and not on the retry list holds exactly the bytes of the
+    latest store of that id *by this instance*, and that chunk was still live at the most recent
+    sweep or start-up: `StoreSpec.fileAllowed`.  In particular files of earlier instances, of
+    interrupted or failed stores and of chunks whose expiry was first noticed by a lookup are not
+    present (or are being retried). -/
 theorem files_allowed (nc : NodeCfg) (hs : SaneCfg nc) (hc : PersistCfg nc.store) (t0 : Int) (fs0 : FS)
     (ops : List HOp) (id : String) (content : Bytes) :
     let x := hrun2 nc (paramsOf nc) (offState t0 fs0, freshSpec t0) ops
-    x.1.up = true → aget x.1.w.sys.fs (.chunk id) = some content →
+    x.1.up = true → aget x.1.w.sys.fs (.chunk id) = some content → Name.chunk id ∉ x.1.w.sys.pending →
     fileAllowed x.2.s x.1.cleaned id content = true := by
-  intro x hup hfile
+  intro x hup hfile hnp
   have hinv : HInv x.1 := by
     have := hinv_run hc ops (hinv_off t0 fs0)
     rw [← hrun2_fst nc (paramsOf nc) (offState t0 fs0, freshSpec t0)] at this
     exact this
   have hrel := (hrel_run hs ops (x := (offState t0 fs0, freshSpec t0)) (hrel_off t0 fs0)).1
   have hsi := hinv hup
-  rw [hsi.files id] at hfile
-  cases hg : aget x.1.w.sys.recs id with
-  | none => rw [hg] at hfile; cases hfile
-  | some r =>
-    rw [hg] at hfile
-    simp only [Option.map, Option.some.injEq] at hfile
-    obtain ⟨e, he, h1, _, h3⟩ := hrel.sound id r hg
-    have hl := hsi.live id r hg
-    have he' : last x.2.s id = some e := he
-    have hl' : x.1.cleaned < e.deadline := by rw [h3]; exact hl
-    simp only [fileAllowed, he']
-    simp [h1, hfile, hl']
+  obtain ⟨r, hg, _, hd⟩ := hsi.files_only id content hfile hnp
+  obtain ⟨e, he, h1, _, h3⟩ := hrel.sound id r hg
+  have hl := hsi.live id r hg
+  have he' : last x.2.s id = some e := he
+  have hl' : x.1.cleaned < e.deadline := by rw [h3]; exact hl
+  simp only [fileAllowed, he']
+  simp [h1, hd, hl']
 
-/-- **C04.cleanup.**  Right after any sweep or start-up at time `T`, however the history went
-    before (lookups that noticed an expiry first, overwrites, crashes, earlier instances), no file
-    exists for a chunk whose deadline is `≤ T` nor for an id this instance never stored. -/
-theorem cleanup (nc : NodeCfg) (hs : SaneCfg nc) (hc : PersistCfg nc.store) (t0 : Int) (fs0 : FS)
-    (ops : List HOp) (ev : HOp) (hev : ev = .op .sweep ∨ ev = .restart) (id : String) :
+/-- the last step of a history -/
+theorem hrun2_snoc_fst (nc : NodeCfg) (t0 : Int) (fs0 : FS) (ops : List HOp) (ev : HOp) :
+    (hrun2 nc (paramsOf nc) (offState t0 fs0, freshSpec t0) (ops ++ [ev])).1 = hstep nc (hrun nc (offState t0 fs0) ops) ev := by
+  rw [hrun2_fst]; simp [hrun, List.foldl_append]
+
+/-- **C04.cleanup_faulty.**  Right after any sweep or start-up at time `T` — even one in which
+    file-system calls failed — a file that exists for a chunk whose deadline is `≤ T`, or for an id
+    this instance never stored, is on the retry list. -/
+theorem cleanup_faulty (nc : NodeCfg) (hs : SaneCfg nc) (hc : PersistCfg nc.store) (t0 : Int) (fs0 : FS)
+    (ops : List HOp) (ev : HOp) (φ : Faults) (hev : ev = .fail .sweep φ ∨ ev = .restartF φ) (id : String) :
     let x := hrun2 nc (paramsOf nc) (offState t0 fs0, freshSpec t0) (ops ++ [ev])
     x.1.up = true → (∀ e, last x.2.s id = some e → e.deadline ≤ x.1.w.now) →
-    aget x.1.w.sys.fs (.chunk id) = none := by
-  intro x hup hdead
+    aget x.1.w.sys.fs (.chunk id) ≠ none → Name.chunk id ∈ x.1.w.sys.pending := by
+  intro x hup hdead hpresent
+  have hx : x.1 = hstep nc (hrun nc (offState t0 fs0) ops) ev := hrun2_snoc_fst nc t0 fs0 ops ev
   have hcl : x.1.cleaned = x.1.w.now := by
-    have hx : x.1 = hstep nc (hrun nc (offState t0 fs0) ops) ev := by
-      show (hrun2 nc (paramsOf nc) (offState t0 fs0, freshSpec t0) (ops ++ [ev])).1 = _
-      rw [hrun2_fst]; simp [hrun, List.foldl_append]
     have hup' : (hstep nc (hrun nc (offState t0 fs0) ops) ev).up = true := hx ▸ hup
     rw [hx]
     rcases hev with rfl | rfl
     · by_cases hu : (hrun nc (offState t0 fs0) ops).up = true
-      · simp [hstep, hu, sweeps, step]
-      · simp [hstep, hu] at hup'
+      · simp [hstep, hstepOp, hu, sweeps, stepF]
+      · simp [hstep, hstepOp, hu] at hup'
     · simp [hstep]
+  cases hm : decide (Name.chunk id ∈ x.1.w.sys.pending) with
+  | true => exact of_decide_eq_true hm
+  | false =>
+    exfalso
+    cases hf : aget x.1.w.sys.fs (.chunk id) with
+    | none => exact hpresent hf
+    | some content =>
+      have := files_allowed nc hs hc t0 fs0 (ops ++ [ev]) id content hup hf (of_decide_eq_false hm)
+      simp only [fileAllowed] at this
+      cases he : last x.2.s id with
+      | none => rw [he] at this; cases this
+      | some e =>
+        rw [he] at this
+        have hd := hdead e he
+        simp only [Bool.and_eq_true, decide_eq_true_eq] at this
+        have := this.2
+        rw [hcl] at this
+        omega
+
+/-- **C04.cleanup.**  Right after any sweep or start-up at time `T` that ran without I/O error,
+    however the history went before (lookups that noticed an expiry first, overwrites, crashes,
+    earlier instances, earlier failed stores, wipes and unlinks): nothing is left to retry and no
+    file exists for a chunk whose deadline is `≤ T` nor for an id this instance never stored. -/
+theorem cleanup (nc : NodeCfg) (hs : SaneCfg nc) (hc : PersistCfg nc.store) (t0 : Int) (fs0 : FS)
+    (ops : List HOp) (ev : HOp) (hev : ev = .op .sweep ∨ ev = .restart) (id : String) :
+    let x := hrun2 nc (paramsOf nc) (offState t0 fs0, freshSpec t0) (ops ++ [ev])
+    x.1.up = true → x.1.w.sys.pending = [] ∧
+    ((∀ e, last x.2.s id = some e → e.deadline ≤ x.1.w.now) → aget x.1.w.sys.fs (.chunk id) = none) := by
+  intro x hup
+  have hx : x.1 = hstep nc (hrun nc (offState t0 fs0) ops) ev := hrun2_snoc_fst nc t0 fs0 ops ev
+  have hpend : x.1.w.sys.pending = [] := by
+    have hup' : (hstep nc (hrun nc (offState t0 fs0) ops) ev).up = true := hx ▸ hup
+    rw [hx]
+    rcases hev with rfl | rfl
+    · by_cases hu : (hrun nc (offState t0 fs0) ops).up = true
+      · simp [hstep, hstepOp, hu, stepF, sysSweepF, wipeAllF_nofault]
+      · simp [hstep, hstepOp, hu] at hup'
+    · simp [hstep, boot, bootF, wipeAllF_nofault]
+  refine ⟨hpend, fun hdead => ?_⟩
   cases hf : aget x.1.w.sys.fs (.chunk id) with
   | none => rfl
   | some content =>
-    have := files_allowed nc hs hc t0 fs0 (ops ++ [ev]) id content hup hf
-    simp only [fileAllowed] at this
-    cases he : last x.2.s id with
-    | none => rw [he] at this; cases this
-    | some e =>
-      rw [he] at this
-      have hd := hdead e he
-      simp only [Bool.and_eq_true, decide_eq_true_eq] at this
-      have := this.2
-      rw [hcl] at this
-      omega
+    -- a fault-free sweep/start-up is the φ = [] instance of the faulty one
+    have key : Name.chunk id ∈ x.1.w.sys.pending := by
+      rcases hev with rfl | rfl
+      · have := cleanup_faulty nc hs hc t0 fs0 ops (.fail .sweep []) [] (Or.inl rfl) id
+        have hsame : hrun2 nc (paramsOf nc) (offState t0 fs0, freshSpec t0) (ops ++ [.fail .sweep []])
+            = hrun2 nc (paramsOf nc) (offState t0 fs0, freshSpec t0) (ops ++ [.op .sweep]) := by
+          have : ∀ (y : HWorld × W), hrun2 nc (paramsOf nc) y [.fail .sweep []] = hrun2 nc (paramsOf nc) y [.op .sweep] := by
+            intro y; rfl
+          have happ : ∀ (l1 l2 : List HOp) (y : HWorld × W),
+              hrun2 nc (paramsOf nc) y (l1 ++ l2) = hrun2 nc (paramsOf nc) (hrun2 nc (paramsOf nc) y l1) l2 := by
+            intro l1
+            induction l1 with
+            | nil => intro l2 y; rfl
+            | cons o r ih => intro l2 y; exact ih l2 _
+          rw [happ, happ, this]
+        rw [hsame] at this
+        exact this hup hdead (by rw [hf]; simp)
+      · have := cleanup_faulty nc hs hc t0 fs0 ops (.restartF []) [] (Or.inr rfl) id
+        have hsame : hrun2 nc (paramsOf nc) (offState t0 fs0, freshSpec t0) (ops ++ [.restartF []])
+            = hrun2 nc (paramsOf nc) (offState t0 fs0, freshSpec t0) (ops ++ [.restart]) := by
+          have : ∀ (y : HWorld × W), hrun2 nc (paramsOf nc) y [.restartF []] = hrun2 nc (paramsOf nc) y [.restart] := by
+            intro y; rfl
+          have happ : ∀ (l1 l2 : List HOp) (y : HWorld × W),
+              hrun2 nc (paramsOf nc) y (l1 ++ l2) = hrun2 nc (paramsOf nc) (hrun2 nc (paramsOf nc) y l1) l2 := by
+            intro l1
+            induction l1 with
+            | nil => intro l2 y; rfl
+            | cons o r ih => intro l2 y; exact ih l2 _
+          rw [happ, happ, this]
+        rw [hsame] at this
+        exact this hup hdead (by rw [hf]; simp)
+    rw [hpend] at key; cases key
+
+/-- **C04.failed_store.**  A store during which file-system calls fail (open refused, disk full in
+    the middle of the write, unlink refused, …) ends in one of three states for the chunk's file:
+    it holds exactly the record's bytes and the record is marked persisted; or it does not exist; or
+    it is on the retry list and the next sweep without I/O error removes it (`cleanup`).  It is never
+    silently left behind with the record not knowing about it. -/
+theorem failed_store (nc : NodeCfg) (hc : PersistCfg nc.store) (t0 : Int) (fs0 : FS) (ops : List HOp)
+    (id : String) (data : Bytes) (ttl : Int) (nonce : Bytes) (enc : Bool) (φ : Faults) :
+    let h := hrun nc (offState t0 fs0) (ops ++ [.fail (.store id data ttl nonce enc) φ])
+    h.up = true →
+    (∃ r, aget h.w.sys.recs id = some r ∧ r.persisted = true ∧ aget h.w.sys.fs (.chunk id) = some r.data) ∨
+    aget h.w.sys.fs (.chunk id) = none ∨ Name.chunk id ∈ h.w.sys.pending := by
+  intro h hup
+  have hi := inv nc hc t0 fs0 (ops ++ [.fail (.store id data ttl nonce enc) φ]) hup
+  cases hf : aget h.w.sys.fs (.chunk id) with
+  | none => exact Or.inr (Or.inl rfl)
+  | some c =>
+    cases hm : decide (Name.chunk id ∈ h.w.sys.pending) with
+    | true => exact Or.inr (Or.inr (of_decide_eq_true hm))
+    | false =>
+      obtain ⟨r, hr, hper, hd⟩ := hi.2 id c hf (of_decide_eq_false hm)
+      exact Or.inl ⟨r, hr, hper, by rw [hd]⟩
 
 /-- **C04.crash_recovery.**  Crash at the `k`-th file-system operation of any operation `o` after
-    any history, then any number of start-up attempts that themselves crash after `ks[i]`
-    operations, then one start-up that completes: the directory contains no chunk file at all, and
-    every other file is what it was at the very beginning. -/
+    any history (including failed stores and wipes), then any number of start-up attempts that
+    themselves crash after `ks[i]` operations, then one start-up that completes without I/O error:
+    the directory contains no chunk file at all, nothing is left to retry, and every other file is
+    what it was at the very beginning. -/
 theorem crash_recovery (nc : NodeCfg) (hc : PersistCfg nc.store) (t0 : Int) (fs0 : FS)
     (ops : List HOp) (o : Op) (k : Nat) (ks : List Nat) :
     let h := hrun nc (offState t0 fs0) (ops ++ [.crash o k] ++ ks.map .crashBoot ++ [.restart])
-    h.up = true ∧ (∀ id, aget h.w.sys.fs (.chunk id) = none) ∧
+    h.up = true ∧ (∀ id, aget h.w.sys.fs (.chunk id) = none) ∧ h.w.sys.pending = [] ∧
     (∀ n, aget h.w.sys.fs (.other n) = aget fs0 (.other n)) := by
   intro h
   have hup : h.up = true := by simp [h, hrun, List.foldl_append, hstep]
-  refine ⟨hup, ?_, fun n => other_run nc _ (offState t0 fs0) n⟩
-  intro id
-  have hi := (hinv_run hc (ops ++ [.crash o k] ++ ks.map .crashBoot ++ [.restart]) (hinv_off t0 fs0) hup).files id
-  have hr : h.w.sys.recs = [] := by simp [h, hrun, List.foldl_append, hstep, boot]
-  rw [hi, hr]; rfl
+  have hb : ∀ (fs : FS) (id : String), aget (boot nc.store fs).fs (.chunk id) = none ∧ (boot nc.store fs).pending = [] :=
+    fun fs id => boot_no_chunk nc.store hc.1 hc.2 fs id
+  refine ⟨hup, ?_, ?_, fun n => other_run nc _ (offState t0 fs0) (pendChunk_off t0 fs0) n⟩
+  · intro id
+    simp only [h, hrun, List.foldl_append, List.foldl_cons, List.foldl_nil, hstep]
+    exact (hb _ id).1
+  · simp only [h, hrun, List.foldl_append, List.foldl_cons, List.foldl_nil, hstep]
+    exact (hb _ "").2
 
-/-- **C04.others_untouched.**  No operation, crash or start-up ever modifies a directory entry
-    that is not a `*.chunk` file. -/
+/-- **C04.others_untouched.**  No operation, crash, I/O error or start-up ever modifies a directory
+    entry that is not a `*.chunk` file. -/
 theorem others_untouched (nc : NodeCfg) (t0 : Int) (fs0 : FS) (ops : List HOp) (n : String) :
     aget (hrun nc (offState t0 fs0) ops).w.sys.fs (.other n) = aget fs0 (.other n) :=
-  other_run nc ops (offState t0 fs0) n
+  other_run nc ops (offState t0 fs0) (pendChunk_off t0 fs0) n
 
-/-- **C04.overwritten.**  Wiping an existing file of `size` bytes is: `passes` overwrite passes,
+/-- **C04.overwritten.**  Wiping an existing file of `size` bytes (no I/O error) is: `passes` overwrite passes,
     each writing exactly `size` zero bytes (so `passes * size` in total) in buffer-sized writes that
     leave the file all-zero with unchanged length, and only then the remove. -/
-theorem overwritten (cfg : Cfg) (fs : FS) (p : Name) (bs : Bytes) (hg : aget fs p = some bs) :
+theorem overwritten (cfg : Cfg) (fs : FS) (p : Name) (bs : Bytes) (hg : aget fs p = some bs) (n : Nat) :
+    (wipeF cfg [] fs p n).1 = wipeOps cfg fs p ∧
     wipeOps cfg fs p = overwriteOps p bs.length cfg.passes ++ [.remove p] ∧
     writtenBytes (overwriteOps p bs.length cfg.passes) = cfg.passes * bs.length ∧
     (1 ≤ cfg.passes → aget (applyOps fs (overwriteOps p bs.length cfg.passes)) p = some (zeros bs.length)) ∧
     aget (applyOps fs (wipeOps cfg fs p)) p = none := by
-  refine ⟨by simp [wipeOps, hg], overwriteOps_written _ _ _, ?_, wipeOps_self _ _ _⟩
+  refine ⟨(wipeF_nofault cfg fs p n).1, by simp [wipeOps, hg], overwriteOps_written _ _ _, ?_, wipeOps_self _ _ _⟩
   intro h1
   rw [overwriteOps_content p cfg.passes fs bs hg]
   have : cfg.passes ≠ 0 := by omega
@@ -157,6 +250,21 @@ example :
     let crashed := hrun exCfg (offState 0 []) (pre ++ [.crash (.store "c1" [8] 10 [] false) 1])
     crashed.w.sys.fs = [(.chunk "c1", [0, 0, 0])] ∧ crashed.up = false ∧
     (hstep exCfg crashed .restart).w.sys.fs = [] := by decide
+
+/-- disk full in the middle of a store (call 1 = the payload write fails after 2 bytes): the partial
+    file is wiped at once, the chunk stays readable from memory, marked not persisted -/
+example :
+    let h := hrun exCfg (offState 0 []) [.restart, .fail (.store "c1" [5, 6, 7, 8] 10 [] false) [(1, 2)]]
+    h.w.sys.fs = [] ∧ h.w.sys.pending = [] ∧ (aget h.w.sys.recs "c1").map (·.persisted) = some false ∧
+    get h.w.sys.recs h.w.now "c1" = some [5, 6, 7, 8] := by decide
+
+/-- the unlink of a sweep is refused (call 3 of: open, 2 pass writes, unlink): the zeroed file stays
+    and is on the retry list; the next sweep removes it -/
+example :
+    let h := hrun exCfg (offState 0 []) [.restart, .op (.store "c1" [5, 6] 1 [] false), .op (.advance 1000000000),
+                                         .fail .sweep [(3, 0)]]
+    h.w.sys.fs = [(.chunk "c1", [0, 0])] ∧ h.w.sys.pending = [.chunk "c1"] ∧ h.w.sys.recs = [] ∧
+    (hstep exCfg h (.op .sweep)).w.sys.fs = [] ∧ (hstep exCfg h (.op .sweep)).w.sys.pending = [] := by decide
 
 /-- the wipe of a 3-byte file with 2 passes: two zero writes of 3 bytes, then remove -/
 example : wipeOps exCfg.store [(.chunk "c1", [5, 6, 7])] (.chunk "c1")
